@@ -408,6 +408,24 @@ Section Pipeline.
     subst e. exact SO.
   Qed.
 
+  (* second audit N2: after a handled report the node shows at most 10/9 of ratio%
+     of the node's CURRENT allocatable (the event is capped by it, the threshold adds 1/9) *)
+  Lemma pstep_report_node_current s :
+    pinv s -> o_handled (snd (pstep pods s (PReport 0))) = true -> label_on (n_label (ps_n s)) = true ->
+    let n' := ps_n (fst (pstep pods s (PReport 0))) in
+    9 * fst (cur_of n') * 100 <= 10 * (n_acpu (ps_n s) * ps_ratio s) /\
+    9 * snd (cur_of n') * 100 <= 10 * (n_amem (ps_n s) * ps_ratio s).
+  Proof.
+    intros Hinv H L n'.
+    destruct (pstep_report_close s Hinv H L) as (ev & E & _ & _ & D).
+    destruct (pstep_event_current_allocatable s 0 ev Hinv E) as [[P1 Q1] [P2 Q2]].
+    pose proof (Z.mul_div_le (n_acpu (ps_n s) * ps_ratio s) 100 ltac:(lia)).
+    pose proof (Z.mul_div_le (n_amem (ps_n s) * ps_ratio s) 100 ltac:(lia)).
+    subst n'. destruct D as [D|(_ & _ & _ & _ & K1 & K2)].
+    - rewrite D. lia.
+    - lia.
+  Qed.
+
   (* every 6th handled report is written whatever the threshold says *)
   Lemma pstep_report_forced s :
     o_handled (snd (pstep pods s (PReport 0))) = true -> label_on (n_label (ps_n s)) = true ->
@@ -446,6 +464,15 @@ Section Pipeline.
         destruct Hn as [_ Hn]. unfold cur_of, oz. simpl. destruct (n_xmem (ps_n s)); simpl in *; lia.
   Qed.
 End Pipeline.
+
+(* a report on a node whose label is not "true"/"1" is ignored altogether: no
+   counter, no write (the handler returns before reportTimes++) *)
+Lemma rhandle_label_off r n ev fail :
+  fail <> 2 -> label_on (n_label n) = false -> rhandle r n ev fail = (r, n, 0).
+Proof.
+  intros F L. unfold rhandle. destruct (fail =? 2) eqn:E; [apply Z.eqb_eq in E; contradiction|].
+  rewrite L. reflexivity.
+Qed.
 
 (* ---------- how long a stale amount can stay: unboundedly while the handler is inactive ---------- *)
 Definition quiet_op (o : pop) : Prop :=
